@@ -1255,6 +1255,19 @@ func (fr *Frame) execLoopCut(l *Loop, in []*Edge) map[*ssa.BasicBlock][]*Edge {
 			t := fr.evalGoal(inv.Expr, sc, e.st, old)
 			vc.obligeNamed(fr, fmt.Sprintf("%s/loop%d/inv-preserved/%d@%d", fname, l.ord, i, li), "inv-preserved", t, inv.Tags, inv.Src)
 		}
+		// head_<name>: the value a loop variable had at the start of this iteration (for latch clauses)
+		if len(lc.Latch) > 0 {
+			ls := map[string]*Val{}
+			for k, v := range scope {
+				ls[k] = v
+			}
+			for k, phi := range phis {
+				if phi.Comment != "" && k < len(headVals) && headVals[k] != nil {
+					ls["head_"+phi.Comment] = headVals[k]
+				}
+			}
+			scope = ls
+		}
 		for i, lt := range lc.Latch {
 			if !clauseActive(lt.Tags, vc.w.prop) {
 				continue
